@@ -78,6 +78,17 @@ pub enum TypedReprRef<'a> {
     RefLarge(&'a [Word]),
 }
 
+#[cfg(dashu_verif)]
+impl Repr {
+    /// Verification hook (read-only): raw signed capacity field, length in words,
+    /// and whether the words are stored inline.
+    #[doc(hidden)]
+    #[inline]
+    pub fn verif_repr_probe(&self) -> (isize, usize, bool) {
+        (self.capacity.get(), self.len(), self.capacity() <= 2)
+    }
+}
+
 impl Repr {
     /// Get the length of the number (in `Word`s), return 0 when the number is zero.
     #[inline]
